@@ -70,3 +70,66 @@ def run_screen_correspondence(ctx, prop: str, n: int) -> None:
                      {"kind": "pixel", **desc, "code": real, "model": model if isinstance(model, str) else list(model),
                       "broken": "correspondence Screen.reading (histogram) <-> CheetahModel.Diagnostics.pixelOf"},
                      found_input=False)
+
+
+def run_hist_correspondence(ctx, prop: str, n: int) -> None:
+    """several particles (weights = charge x survival, some lost, some off the screen) on a float64 histogram screen:
+    the whole image and its total vs the Lean model `histImage` / `histTotal` (theorem C20.histogram_sums_to_charge_inside
+    is about these definitions)"""
+    from common import vec_close
+    F64 = torch.float64
+    rep, rng = ctx.report, ctx.rng
+    drv = LeanDriver()
+    pend = []
+    for _ in range(n):
+        b = int(rng.choice([1, 1, 2, 3]))
+        W, H = int(rng.integers(2, 7)) * b, int(rng.integers(2, 7)) * b
+        pw, ph = float(rng.choice([1e-4, 2.5e-4, 1e-3])), float(rng.choice([1e-4, 3e-4, 1e-3]))
+        dx = float(rng.choice([0.0, 1.0, -1.0]) * rng.uniform(0, 3) * pw)
+        dy = float(rng.choice([0.0, 1.0, -1.0]) * rng.uniform(0, 3) * ph)
+        nW, nH = W // b, H // b
+        m = int(rng.integers(1, 9))
+        ex, ey = W * pw / nW, H * ph / nH
+        xs = -W * pw / 2 + (rng.integers(0, nW, m) + rng.uniform(0.2, 0.8, m)) * ex + dx
+        ys = -H * ph / 2 + (rng.integers(0, nH, m) + rng.uniform(0.2, 0.8, m)) * ey + dy
+        offm = rng.random(m) < 0.2
+        xs = np.where(offm, xs + W * pw * 1.5, xs)
+        q = rng.uniform(0.1, 1.0, m)
+        sv = np.where(rng.random(m) < 0.75, 1.0, rng.choice([0.0, 0.5], m))
+        scr = cheetah.Screen(resolution=(W, H), pixel_size=torch.tensor([pw, ph], dtype=F64), binning=b,
+                             misalignment=torch.tensor([dx, dy], dtype=F64), is_active=True, dtype=F64)
+        P = torch.zeros(m, 7, dtype=F64)
+        P[:, 0], P[:, 2], P[:, 6] = torch.tensor(xs), torch.tensor(ys), 1.0
+        beam = cheetah.ParticleBeam(P, torch.tensor(1e8, dtype=F64), particle_charges=torch.tensor(q, dtype=F64),
+                                    survival_probabilities=torch.tensor(sv, dtype=F64), dtype=F64)
+        try:
+            scr.track(beam)
+            img = scr.reading
+        except Exception as ex:  # noqa: BLE001
+            rep.count(f"screen-rejected:{type(ex).__name__}")
+            continue
+        if tuple(img.shape) != (nH, nW):
+            real = None
+        else:
+            real = img.reshape(-1).tolist() + [float(img.sum())]
+        args = [float(W), float(H), float(b), pw, ph, dx, dy, float(m)]
+        for k in range(m):
+            args += [float(xs[k]), float(ys[k]), float(q[k] * sv[k])]
+        pend.append((drv.call("hist", *args), real, {"W": W, "H": H, "binning": b, "pixel_size": [pw, ph], "misalignment": [dx, dy],
+                                                      "x": xs.tolist(), "y": ys.tolist(), "q": q.tolist(), "survival": sv.tolist(),
+                                                      "shape": list(img.shape)}))
+    replies = drv.run()
+    for idx, real, desc in pend:
+        rep.corr_cases += 1
+        rep.count("hist" + (":binned" if desc["binning"] > 1 else ""))
+        rep.case(("hist", desc["W"], desc["H"], desc["binning"], len(desc["x"])), {"op": "hist", **{k: desc[k] for k in ("W", "H", "binning")}} if rep.corr_cases % 40 == 1 else None)
+        model = replies[idx]
+        ok = real is not None and not isinstance(model, str) and len(model) == len(real) and vec_close(real, model, ulps=64.0, scale=max(real[-1], 1e-300))[0]
+        if not ok:
+            ctx.escalate = True
+            rep.fail("correspondence", f"{prop}|model-mismatch|Screen.reading|histogram image",
+                     f"histogram image of {len(desc['x'])} particles (shape {desc['shape']}) differs from the Lean model histImage: code "
+                     f"{real if real is None else [round(v, 6) for v in real][:12]} model {model if isinstance(model, str) else [round(v, 6) for v in model][:12]}",
+                     {"kind": "hist", **desc, "code": real, "model": model if isinstance(model, str) else list(model),
+                      "broken": "correspondence Screen.reading (histogram) <-> CheetahModel.Diagnostics.histImage/histTotal"},
+                     found_input=False)
